@@ -11,8 +11,8 @@
                  which of several equally heavy chains `_longest_local_block_chain` keeps): elements of
                  [pref] come first, in that order.
    Weights and indices are Z (Python int).  Header objects are identified with their hash: an op is
-   (is_add, hash, index).  `unlocked_block_storage`, `did_lock_to_index_f`, the callbacks (they receive the
-   same `ops` list) and `preload_locked_blocks` are not modelled.  Negative indices of tuple_for_index are
+   (is_add, hash, index).  `unlocked_block_storage`, `did_lock_to_index_f` and the callbacks (they receive the
+   same `ops` list) are not modelled; `preload_locked_blocks` is modelled for a freshly constructed BlockChain.  Negative indices of tuple_for_index are
    not modelled.  The mutable default `cache`/`path_cache` arguments of maximum_path are write-only. *)
 From Coq Require Import List NArith ZArith Bool.
 From PV Require Import Base.Outcome.
@@ -466,3 +466,14 @@ Fixpoint run_from (bc : blockchain) (evs : list event) : list snapshot * stop :=
     end
   end.
 Definition run (anchor : hash) (evs : list event) := run_from (new_blockchain anchor) evs.
+
+(* preload_locked_blocks(headers_iter): the locked chain is replaced by the given headers, their indices are
+   entered into hash_to_index_lookup, the anchor moves to the last one; nothing else is touched *)
+Definition preload_locked_blocks (hs : list header) (bc : blockchain) : blockchain :=
+  mkBC (last (map hh hs) (bc_parent bc))
+       (map (fun x => (hh x, hp x, Some (hw x))) hs)
+       (fold_left (fun m ix => dset (hh (snd ix)) (fst ix) m) (enumerate 0%Z hs) (bc_h2i bc))
+       (bc_w bc) (bc_cf bc) (bc_cache bc).
+(* a BlockChain constructed with [anchor], optionally preloaded with [pre], then the events *)
+Definition run_pre (anchor : hash) (pre : list header) (evs : list event) :=
+  run_from (preload_locked_blocks pre (new_blockchain anchor)) evs.
